@@ -23,6 +23,12 @@ DATE = {1: "2024-02-03", 2: "2024-02-04"}
 FR = 2000.0
 
 
+def frame_rate(i):
+    """every input has a frame rate of its own (the frames of an input are
+    counted at its own rate)"""
+    return FR + 500.0 * (i % 3)
+
+
 def tstr(tick):
     sec = tick // 2
     s = "12:%02d:%02d" % (sec // 60, sec % 60)
@@ -37,7 +43,7 @@ def write_input(path, i, inp):
                                         "time": tstr(inp["tick"]),
                                         "run index": inp["run"],
                                         "sample": "input %d" % i},
-                         "imaging": {"frame rate": FR}},
+                         "imaging": {"frame rate": frame_rate(i)}},
                    logs={"log_%d" % i: ["hello from %d" % i, "bye"]},
                    run_id="verif-join-%d" % i)
     return ids
@@ -115,7 +121,7 @@ def _join(job):
                     inp["tick"] - first["tick"]) * 0.5
                 ids = [100 * i + j for j in range(1, inp["n"] + 1)]
                 wt += list(gen.scalar("time", ids) + dt)
-                wf += [int(x) + int(round(dt * FR))
+                wf += [int(x) + int(round(dt * frame_rate(i)))
                        for x in gen.scalar("frame", ids)]
             if not np.allclose(ds["time"][:], wt, rtol=0, atol=1e-9):
                 out.append(("time is not continued by the acquisition "
